@@ -61,6 +61,7 @@ structure St where
   fixF4 : Bool := true
   res : Res.St := {}                               -- C18: the resource ledger machine
   resLast : Std.HashMap Nat Nat := {}              -- C18: last key accepted by each writer (ordering gate)
+  resSMin : Std.HashMap Nat Nat := {}              -- C18: smallest key added to each sorter (first entry mtbl_sorter_write offers)
   tp : Option Tp.St := none                        -- C13: the threadpool machine being replayed
   tpk : Option TpK.St := none                      -- C13/C14: the k-client machine being replayed (tp.multi)
   fixF5 : Bool := true
@@ -1064,7 +1065,7 @@ def parseIds (x : String) : List Nat := if x == "-" then [] else (x.splitOn ",")
 def stepRes (s : St) (line : String) : Option (St × String) :=
   let upd (s : St) (op : Res.Op) (reply : String) : Option (St × String) := some ({ s with res := Res.step s.res op }, reply)
   match line.trimAscii.toString.splitOn " " with
-  | ["res.begin"] => some ({ s with res := { fixF6 := s.res.fixF6, fixF10 := s.res.fixF10 }, resLast := {} }, "ok")
+  | ["res.begin"] => some ({ s with res := { fixF6 := s.res.fixF6, fixF10 := s.res.fixF10 }, resLast := {}, resSMin := {} }, "ok")
   | ["cfg", "fixF6", v] => some ({ s with res := { s.res with fixF6 := v == "1" } }, "ok")
   | ["cfg", "fixF10", v] => some ({ s with res := { s.res with fixF10 := v == "1" } }, "ok")
   | "res.table" :: t :: n :: _ :: _ :: _ => match t.toNat?, n.toNat? with   -- optional: codec, value length (content only)
@@ -1093,11 +1094,14 @@ def stepRes (s : St) (line : String) : Option (St × String) :=
       let fk : Option Nat := if mg.startsWith "fail" then (mg.drop 4).toString.toNat? else none
       -- a pool object with zero threads leaves the sorter's inner pool NULL: chunks are then written synchronously
       let pooled := (kv args "pool").getD "-" != "-" && kvNat args "pth" 1 != 0
-      upd s (.sorter i { limit := if mem < 64 then 64 else mem, eo := kvNat args "eo" 8, failKey := fk, pooled }) "ok"
+      upd { s with resSMin := s.resSMin.erase i } (.sorter i { limit := if mem < 64 then 64 else mem, eo := kvNat args "eo" 8, failKey := fk, pooled }) "ok"
   | ["res.sadd", i, k, vl] => match i.toNat?, k.toNat?, vl.toNat? with
     | some i, some k, some vl =>
       match Res.getObj s.res i with
-      | .sorter ss => upd s (.sadd i k vl) (if (Res.sorterAdd s.res.fixF6 s.res.fixF10 ss k vl).1 then "ok" else "fail")
+      | .sorter ss =>
+        let okAdd := (Res.sorterAdd s.res.fixF6 s.res.fixF10 ss k vl).1
+        let mn := match s.resSMin[i]? with | some m => min m k | none => k
+        upd (if okAdd then { s with resSMin := s.resSMin.insert i mn } else s) (.sadd i k vl) (if okAdd then "ok" else "fail")
       | _ => none
     | _, _, _ => none
   | ["res.siter", i, sid] => match i.toNat?, sid.toNat? with
@@ -1112,7 +1116,11 @@ def stepRes (s : St) (line : String) : Option (St × String) :=
       | .sorter ss =>
         if ss.iterating then some (s, "fail") else
         let okk := (Res.sorterIter s.res.fixF6 s.res.fixF10 ss).1
-        upd { s with resLast := s.resLast.insert w 99999 } (.swrite sid) (if okk then "ok" else "fail")
+        -- the sorter offers its entries in ascending order; a writer that already holds a key >= the smallest one refuses the
+        -- first add and mtbl_sorter_write stops there
+        let refused := match s.resLast[w]?, s.resSMin[sid]? with | some l, some m => decide (m ≤ l) | _, _ => false
+        upd (if refused then s else { s with resLast := s.resLast.insert w 99999 }) (.swrite sid)
+          (if okk && !refused then "ok" else "fail")
       | _ => none
     | _, _ => none
   | ["res.fileset", i, sid] => match i.toNat?, sid.toNat? with
